@@ -81,6 +81,7 @@ type RpcCase struct {
 	Exact    bool     `json:"exact"`    // sizes are exact wire sizes in the case's codec
 	TruncK   int      `json:"trunck"`   // with Trunc > 0: number of complete client messages kept
 	Corrupt  bool     `json:"corrupt"`  // gRPC: the first frame claims to be compressed but holds garbage
+	H2       bool     `json:"h2"`       // gRPC-web / HTTP / Twirp request arrives over HTTP/2 (gRPC always does)
 	Boundary int      `json:"boundary"` // >0: the first message is 8+Boundary-1 small records and the receive limit is exactly 8 records
 }
 
@@ -700,16 +701,25 @@ func (e *rpcEnv) buildRequest() *http.Request {
 			req.Header.Set("Grpc-Encoding", c.Comp)
 		}
 	case "grpcweb":
+		if c.H2 {
+			req.ProtoMajor, req.ProtoMinor, req.Proto = 2, 0, "HTTP/2.0"
+		}
 		req.Header.Set("Content-Type", "application/grpc-web+"+c.Codec)
 		if c.Comp != "" {
 			req.Header.Set("Grpc-Encoding", c.Comp)
 		}
 	case "grpcwebtext":
+		if c.H2 {
+			req.ProtoMajor, req.ProtoMinor, req.Proto = 2, 0, "HTTP/2.0"
+		}
 		req.Header.Set("Content-Type", "application/grpc-web-text+"+c.Codec)
 		if c.Comp != "" {
 			req.Header.Set("Grpc-Encoding", c.Comp)
 		}
 	default:
+		if c.H2 {
+			req.ProtoMajor, req.ProtoMinor, req.Proto = 2, 0, "HTTP/2.0"
+		}
 		if c.Codec == "json" {
 			req.Header.Set("Content-Type", "application/json")
 		} else {
